@@ -1,12 +1,12 @@
 HEADER = '''(* C17  Endpoints move exactly N octets in order whatever the driver does.
-   Statements only (printed by Coq from the lemmas they are closed with); proofs in Proof/EndpointsLemmas.v, Proof/EndpointsTotal.v;
-   model Model/Endpoints.v (scripted drivers: every driver call consumes one behaviour event Give k | Zero | Intr | Again | Fail e; behind the
-   script the driver delivers what is asked until the stream ends).
-   Proved for EVERY script, octet- and chunk-style drivers: the get/put sides and their at-most variants incl. termination of the retry loops;
-   the per-octet, counted and draining source-to-sink plumbing without auxiliary buffer for every source script and every sink that accepts
-   or fails hard.  Correspondence only (partial): the plumbing variants with an auxiliary buffer, sinks that return 0 / EINTR / EAGAIN on a
-   single octet inside the plumbing (the octet already taken from the source is dropped there: outside the stated domain). *)'''
-IMPORTS = '''From Ufw Require Import Base.Bits Base.Errno Model.Endpoints Proof.EndpointsLemmas Proof.EndpointsTotal.
+   Statements only (printed by Coq from the lemmas they are closed with); proofs in Proof/EndpointsLemmas.v, Proof/EndpointsTotal.v,
+   Proof/EndpointsAux.v; model Model/Endpoints.v (scripted drivers: every driver call consumes one behaviour event
+   Give k | Zero | Intr | Again | Fail e; behind the script the driver delivers what is asked until the stream ends).
+   Proved for EVERY source script and EVERY sink script, octet- and chunk-style drivers on both sides: the get/put sides and their at-most
+   variants incl. termination of the retry loops; the per-octet, counted and draining source-to-sink plumbing without and with an auxiliary
+   buffer (what reached the sink is a prefix of the stream, a success moved exactly the requested octets in order, the calls return;
+   at most the one octet - or the one scratch-buffer load - in flight is lost when the sink fails). *)'''
+IMPORTS = '''From Ufw Require Import Base.Bits Base.Errno Model.Endpoints Proof.EndpointsLemmas Proof.EndpointsTotal Proof.EndpointsAux.
 From Coq Require Import Lia.
 Local Open Scope N_scope.'''
 ITEMS = [
@@ -24,21 +24,34 @@ ITEMS = [
  ('C17_plumbing_counted_terminates', 'sts_n_total', ''),
  ('C17_plumbing_drain', 'sts_drain_spec', 'source-to-sink, draining: everything up to the point where source or sink ended it reached the sink, in order'),
  ('C17_plumbing_drain_terminates', 'sts_drain_total', ''),
- ('C17_plumbing_one_octet', 'sts_cbc_spec', 'one octet through'),
+ ('C17_plumbing_one_octet', 'sts_cbc_spec', 'one octet through: zero-length answers of either driver are repeated, never forwarded or counted'),
+ ('C17_plumbing_fixed_count', 'sts_n_cbc_spec', 'the fixed-count per-octet loop'),
+ ('C17_aux_round', 'sts_some_aux_spec', 'one round through the auxiliary buffer: what was read is written to the start of the scratch image only, and all of it is pushed'),
+ ('C17_aux_round_terminates', 'sts_some_aux_total', ''),
+ ('C17_aux_counted', 'sts_n_aux_spec', 'counted, through the auxiliary buffer: exactly the next n octets in order, or an error with a prefix in the sink'),
+ ('C17_aux_counted_terminates', 'sts_n_aux_total', ''),
+ ('C17_aux_drain', 'sts_drain_aux_spec', 'draining through the auxiliary buffer'),
+ ('C17_aux_drain_terminates', 'sts_drain_aux_total', ''),
 ]
 EXTRA = '''
-(* non-vacuity: a chunk driver that gives 2, then nothing, is interrupted, then gives the rest; a counted transfer into a sink that fails at the third octet *)
+(* non-vacuity: a chunk driver that gives 2, then nothing, is interrupted, then gives the rest; a counted transfer into a sink that takes
+   nothing at first and fails at the third octet; a counted transfer through a 2-octet scratch buffer *)
 Example C17_example :
   source_get_chunk {| s_octet := false; s_stream := [1;2;3;4;5;6]; s_script := [Give 2; Zero; Intr; Give 1]; s_calls := 0 |} 5
   = Some (DOk 5, [1;2;3;4;5],
           {| s_octet := false; s_stream := [6]; s_script := []; s_calls := 5 |}).
 Proof. vm_compute. reflexivity. Qed.
 Example C17_plumbing_example :
-  let k := {| k_octet := true; k_got := []; k_script := [Give 1; Give 1; Fail EIO]; k_calls := 0 |} in
-  steady k /\\
+  let k := {| k_octet := true; k_got := []; k_script := [Zero; Give 1; Zero; Give 1; Fail EIO]; k_calls := 0 |} in
   match sts_n (src_plain false [1;2;3;4;5]) k 4 with
   | Some (r, s', k') => (r, s_stream s', k_got k') = (DErr EIO, [4;5], [1;2])
   | None => False
   end.
-Proof. split; [repeat constructor; cbn; lia|vm_compute; reflexivity]. Qed.
+Proof. vm_compute. reflexivity. Qed.
+Example C17_aux_example :
+  match sts_n_aux (src_plain true [1;2;3;4;5]) (snk_plain false) [0;0] 5 with
+  | Some (r, s', k', aux') => (r, s_stream s', k_got k', aux') = (DOk 5, [], [1;2;3;4;5], [5;4])
+  | None => False
+  end.
+Proof. vm_compute. reflexivity. Qed.
 '''
